@@ -18,8 +18,11 @@ func OpenString(L *LState) int {
 	gmatch := L.NewFunction(strGmatch)
 	mod.RawSetString("gmatch", gmatch)
 	mod.RawSetString("gfind", gmatch)
-	mod.RawSetString("__index", mod)
-	L.G.builtinMts[int(LTString)] = mod
+	// Lua 5.1 (lstrlib.c createmetatable): the metatable of strings is a separate table whose only
+	// field is __index = string; the library table itself is not a metatable
+	mt := L.CreateTable(0, 1)
+	mt.RawSetString("__index", mod)
+	L.G.builtinMts[int(LTString)] = mt
 	//}
 	L.Push(mod)
 	return 1
